@@ -19,7 +19,7 @@ SPECS = ["C13"]
 THEOREMS = [
     "C13.nested_enter_silent", "C13.nested_exit_silent", "C13.unwind_spec", "C13.enterSteps_spec",
     "C13.machSteps_eq_specOrder", "C13.runBody_spec", "C13.session_spec", "C13.run_spec",
-    "C13.machEnter_fresh", "C13.exc_iff_raised", "C13.power_off_count", "C13.power_off_position",
+    "C13.machEnter_fresh", "C13.exc_iff_raised", "C13.power_off_count", "C13.power_off_exactly_once", "C13.power_off_position",
     "C13.refused_no_power", "C13.conn_exit_after_power_off", "C13.fresh_entry_reinit", "C13.powercycle_delay_exact",
 ]
 LEAN_MODULES = ["TbotVerif.Props.C13"]
